@@ -4,10 +4,33 @@ SPEC = dict(
     coq_dir="C19",
     coq_targets=["C19/Proofs.vo", "C19/Examples.vo"],
     allowed_axioms=[],
-    level_text="(draft)",
-    level_note="(draft)",
-    technique="Coq proof over hand-written Gallina model + vm_compute correspondence",
-    modelled=[],
-    not_covered=[],
-    assumptions=[],
+    level_text=("Unbounded Coq theorems (all decoded mapping tables x all subset definitions x all applied-bit states) about an "
+                "executable model of IFT patch selection: the intersection cache equals the specification's 'check entry intersection' "
+                "incl. conjunctive/disjunctive children and empty-means-wildcard; the offered set is exactly the un-applied, un-ignored, "
+                "intersecting entries, is monotone in the definition and contained in the set offered for SubsetDefinition::all(); a selected "
+                "group has no duplicate URI, at most one invalidating patch per mapping table, nothing beside a fully invalidating patch, and "
+                "each scope's invalidating patch has a maximal intersection with the earliest entry order among equals (max_by_key's "
+                "last-maximum with the reversed entry order); every successful apply round moves a URI from Pending to Applied and never back, "
+                "so an extension run has at most #pending successful rounds. The model is tied to the code on every run: real format-2 "
+                "IFT/IFTX tables are built byte by byte, the real intersecting_patches / PatchGroup::select_next_patches / apply_next_patches "
+                "run on them, and coqc evaluates the model on the same decoded entries (candidates incl. intersection infos, URI lists, "
+                "patch_data after each round)."),
+    level_note=("Trusted: Coq kernel; the hand-written model coq/C19/Model.v (agreement with the Rust code is checked by correspondence, not proved); "
+                "the harness encoder/generator. Decoding of the bytes into entries (sparse bit sets, id deltas, flags) and URI template expansion are "
+                "not modelled: the harness states the decoded entries and URIs it intends and the comparison of results covers them indirectly "
+                "(an independent template expansion in the harness is compared with uri_string()). Format-1 tables are covered by the "
+                "implementation-only oracle (monotone, subset-of-all, grouping rules), not by the model. Glyph-keyed patch application inside the "
+                "extension loop is abstract (patch_ok)."),
+    technique="Coq proof (list/Z reasoning, strong induction over entry index, lexicographic order lemmas) over hand-written Gallina model + vm_compute correspondence with incremental-font-transfer",
+    modelled=["incremental-font-transfer/src/patchmap.rs: Entry::intersects, Entry::design_space_intersects, EntryIntersectionCache::{intersects, compute_intersection, all_children_intersect, some_children_intersect}, add_intersecting_format2_patches, intersecting_patches, SubsetDefinition::{all, intersection, design_space_intersection}, IntersectionInfo::{from_subset, design_space_size} and its Ord, decode_format2_entry's child-index and segment checks",
+              "incremental-font-transfer/src/patch_group.rs: PatchGroup::{select_next_patches, select_next_patches_from_candidates, select_invalidating_candidate, uris, apply_next_patches_with_decoder (bookkeeping)}, GroupingByInvalidation::group_patches",
+              "read-fonts/src/collections/range_set.rs: canonical form of RangeSet<Fixed> (insert/intersection), as used for intersection sizes"],
+    not_covered=["byte-level decoding of format-2 entries (decode_format2_entry/_codepoints, format2_new_entry_id) and of format-1 glyph/feature maps: not modelled; exercised through the harness encoder and, for format 1, by the implementation-only oracle on the font-test-data fixtures",
+                 "uri_templates.rs expansion: URIs are abstract ordered identifiers in the model; the harness compares uri_string() with its own expansion for the templates it uses",
+                 "entry-side FeatureSet::All / DesignSpace::All / inverted codepoint sets (arms of Entry::intersects and SubsetDefinition::intersection that no decoded table reaches)",
+                 "actual patch application (C18): the extension-loop model takes success of the patch application as a boolean; the real loop is run with no-op table-keyed patches only"],
+    assumptions=["decoded entries are as the harness encoded them (checked indirectly by the correspondence on results)",
+                 "URI order in the model = byte order of the expanded URI strings (BTreeMap<String,_>)",
+                 "mapping_wf (children refer to earlier entries, segments have start <= end, an axis is listed only with a segment) is what decode_format2_entry guarantees; c19_decodable_wf derives it from the model's decodability check"],
+    trusted_base=["PatchUri's crate-private fields (source table, applied-bit index, intersection info) are read from its derived Debug output"],
 )
